@@ -543,7 +543,10 @@ def run_case(case):
                 continue
             pending.append(res)
             if len(hist) < depth:
-                for op in ops:
+                # the argument-form variants (tuples, NumPy arrays) are explored at the first two positions; at the
+                # third position of the thorough tier only the base alphabet is used (keeps 4 x 80^3 histories feasible)
+                nxt = ops if len(hist) < 2 else [o for o in ops if "np-" not in o[2] and o[2] != "tuple"]
+                for op in nxt:
                     stack.append(hist + [op])
             if len(pending) >= 100:
                 f.close()
